@@ -3,7 +3,8 @@
    overflowing the stack, and either succeeds or reports at least one diagnostic.
    One record per compiled project:  [id, outcome, ndiag]   (ndiag = number of diagnostics reported;
    outcome "panic" = the compiler panicked (caught by the harness), "abort" = the compiler process
-   died (abort / stack overflow, attributed by the driver)).  Instead of ndiag a record may carry
+   died (abort / stack overflow, attributed by the driver), "timeout" = the compile did not terminate
+   within the driver's per-project limit).  Instead of ndiag a record may carry
    the list `diagnostics`. *)
 EXTENDS Naturals, Sequences, TLC, Json, IOUtils
 
@@ -19,6 +20,7 @@ Why(r) ==
     [] r.outcome = "diagnostics" -> IF NDiag(r) >= 1 THEN "" ELSE "failed without any diagnostic"
     [] r.outcome = "panic" -> "panic"
     [] r.outcome = "abort" -> "process died (abort / stack overflow)"
+    [] r.outcome = "timeout" -> "did not terminate (killed by the driver after its per-project time limit)"
     [] OTHER -> "unknown outcome"
 
 Next == /\ l <= Len(Rec)
